@@ -971,10 +971,18 @@ func (e *ev) binary(x *E) Val {
 			}
 		case KStr:
 			// membership in a string is the substring test
-			if l.K != KStr {
-				leave("in: non-string needle in a string")
+			// (only a string or a number can be part of a string: null, a
+			// boolean, a list or a hash is not, although each of them
+			// coerces to the empty string)
+			switch l.K {
+			case KStr:
+				found = strings.Contains(r.S, l.S)
+			case KNum:
+				found = strings.Contains(r.S, numStr(l.N))
+			default:
+				e.sh.feature("in-string:needle-not-a-string")
+				found = false
 			}
-			found = strings.Contains(r.S, l.S)
 		default:
 			leave("in: haystack is not an array")
 		}
